@@ -206,6 +206,9 @@ impl Reader {
                 Adv::Silent => {
                     cx.adversarial("peer-silent");
                     cx.note(format!("reader goes silent at step {step}"));
+                    if cx.icmp_enabled() {
+                        cx.close_endpoint();
+                    }
                     self.silent = true;
                     self.gen += 1;
                     self.status = Status::Failed("scripted silence".into());
@@ -526,6 +529,9 @@ impl Writer {
                 Adv::Silent => {
                     cx.adversarial("peer-silent");
                     cx.note(format!("writer goes silent at step {step}"));
+                    if cx.icmp_enabled() {
+                        cx.close_endpoint();
+                    }
                     self.silent = true;
                     self.gen += 1;
                     self.status = Status::Failed("scripted silence".into());
